@@ -16,19 +16,34 @@ func LangTagConverter(century int, dateFormat DateFormat) func(float64, string, 
 		TAG = 0
 		P1 = 0
 		P2 = 0
-		for ok := true; ok; ok = P1 == 0 {
+		// the day length is periodic: search at most to the end of the year, at latitudes
+		// where the threshold is never exceeded take the longest day found instead
+		longestDay, longestDL := 0, 0.0
+		for ok := true; ok; ok = P1 == 0 && TAG < 365 {
 			TAG++
 			DL, _, _, _, _, _, _ := CalculateDayLenght(float64(TAG), LAT)
+			if DL > longestDL {
+				longestDay, longestDL = TAG, DL
+			}
 			if DL > 14 {
 				P1 = TAG
 			}
 		}
-		for ok := true; ok; ok = P2 == 0 {
+		if P1 == 0 {
+			P1, TAG = longestDay, longestDay
+		}
+		for ok := true; ok; ok = P2 == 0 && TAG < 365 {
 			TAG++
 			DL, _, _, _, _, _, _ := CalculateDayLenght(float64(TAG), LAT)
+			if DL > longestDL {
+				longestDay, longestDL = TAG, DL
+			}
 			if DL > 16 {
 				P2 = TAG // Beginn Große Periode
 			}
+		}
+		if P2 == 0 {
+			P2, TAG = longestDay, longestDay
 		}
 		if progDat[1] != '-' {
 			var progja int
